@@ -1,11 +1,33 @@
+import Upf.Gen.Consts
+import Upf.Gen.Conf
+import Upf.Model.Strip
+/-!
+# Configuration loading (pfcpiface/config.go), after comment removal
 
+`LoadConfigFile` = `removeComments` (model: `Upf/Model/Strip.lean`) ; `json.Unmarshal` into a `Conf` that already
+carries two pre-decode defaults ; "set defaults, when missing" ; `validateConf`.
+
+* `decode`  — what `encoding/json` does to the thirteen fields the property speaks about, given for each field
+  the JSON value the document holds for its key (`JV`: absent / null / integer / string / bool / anything else).
+  A value of the wrong JSON kind or an integer outside the field's unsigned range makes `Unmarshal` return an
+  error (it keeps decoding, but the error is returned and `LoadConfigFile` drops the configuration).
+* `defaults` — the four `if … == zero { … = default }` assignments; the defaults are computed from the
+  regenerated constants (`Gen.Consts`) the way the code computes them (`Duration.String()`, `uint32(Seconds())`).
+* `validate` — `validateConf`, check by check and in the code's order, returning WHICH check refused.
+
+The standard-library predicates (`time.ParseDuration`, `net.ParseCIDR`, `net.ParseIP`, `zapcore.Level.UnmarshalText`)
+are parameters (`Preds`): the theorems hold for every choice of them, the acceptor instantiates them with Go's
+recorded verdicts.
+-/
 namespace Conf
 
 structure Preds where
-  dur : String → Bool      -- time.ParseDuration succeeds
-  cidr : String → Bool     -- net.ParseCIDR succeeds
-  ip : String → Bool       -- net.ParseIP ≠ nil
+  dur : String → Bool            -- time.ParseDuration succeeds
+  cidr : String → Bool           -- net.ParseCIDR succeeds
+  ip : String → Bool             -- net.ParseIP ≠ nil
+  level : String → Option Int    -- zapcore.Level.UnmarshalText: the level, or an error
 
+/-- the fields of `Conf` the property speaks about -/
 structure C where
   mode : String
   enableP4rt : Bool
@@ -18,36 +40,254 @@ structure C where
   maxReqRetries : Nat
   enableHB : Bool
   hbInterval : String
+  logLevel : Int
+  defaultTC : Nat
+  deriving DecidableEq, Repr
+
+/-! ## `time.Duration.String()` for non-negative durations (nanoseconds) -/
+
+/-- `fmtFrac`: the fraction of `v / 10^prec` without trailing zeros (and without the point when it is zero),
+pushed in front of `acc`; returns the integer part too -/
+def fmtFrac : Nat → Nat → Bool → List Char → List Char × Nat
+  | 0, v, pr, acc => (if pr then '.' :: acc else acc, v)
+  | p+1, v, pr, acc =>
+    let digit := v % 10
+    let pr := pr || digit != 0
+    fmtFrac p (v / 10) pr (if pr then Char.ofNat (48 + digit) :: acc else acc)
+
+def durChars (d : Nat) : List Char :=
+  if d < 1000000000 then
+    if d = 0 then ['0', 's']
+    else if d < 1000 then Nat.toDigits 10 d ++ ['n', 's']
+    else if d < 1000000 then
+      let (frac, u) := fmtFrac 3 d false ['µ', 's']
+      Nat.toDigits 10 u ++ frac
+    else
+      let (frac, u) := fmtFrac 6 d false ['m', 's']
+      Nat.toDigits 10 u ++ frac
+  else
+    let (frac, u) := fmtFrac 9 d false ['s']
+    let s := Nat.toDigits 10 (u % 60) ++ frac
+    let u := u / 60
+    if u > 0 then
+      let s := Nat.toDigits 10 (u % 60) ++ 'm' :: s
+      let u := u / 60
+      if u > 0 then Nat.toDigits 10 u ++ 'h' :: s else s
+    else s
+
+def durString (d : Nat) : String := String.ofList (durChars d)
+
+/-! ## defaults, from the regenerated constants -/
+
+/-- `respTimeoutDefault.String()` -/
+def respTimeoutDefaultStr : String := durString Gen.Consts.respTimeoutDefault
+/-- `hbIntervalDefault.String()` -/
+def hbIntervalDefaultStr : String := durString Gen.Consts.hbIntervalDefault
+/-- `uint32(readTimeoutDefault.Seconds())` (exact for whole seconds; truncation otherwise) -/
+def readTimeoutDefaultSecs : Nat := Gen.Consts.readTimeoutDefault / 1000000000 % 2 ^ 32
+/-- `maxReqRetriesDefault` stored in a `uint8` -/
+def maxReqRetriesDefault : Nat := Gen.Consts.maxReqRetriesDefault
+
+/-- the configuration `json.Unmarshal` starts from: Go zero values, except the two fields set before decoding -/
+def init : C :=
+  { mode := "", enableP4rt := false, accessIP := "", uePool := "", enableUeIPAlloc := false, peers := [],
+    respTimeout := "", readTimeout := 0, maxReqRetries := 0, enableHB := false, hbInterval := "",
+    logLevel := Gen.Conf.logLevelInit, defaultTC := Gen.Conf.defaultTCInit.toNat }
+
+/-! ## decoding -/
+
+/-- what a document holds under a key -/
+inductive JV
+  | absent                -- key not in the document
+  | null                  -- JSON null: leaves the field as it is
+  | num (n : Int)         -- integer literal without fraction or exponent
+  | str (s : String)
+  | bool (b : Bool)
+  | other                 -- object, array, number with fraction/exponent
+  deriving DecidableEq, Repr
+
+/-- what a document holds under `peers` -/
+inductive JA
+  | absent
+  | null
+  | arr (l : List JV)
+  | other
+  deriving DecidableEq, Repr
+
+structure Doc where
+  mode : JV
+  enableP4rt : JV
+  accessIP : JV
+  uePool : JV
+  enableUeIPAlloc : JV
+  peers : JA
+  respTimeout : JV
+  readTimeout : JV
+  maxReqRetries : JV
+  enableHB : JV
+  hbInterval : JV
+  logLevel : JV
+  defaultTC : JV
+  deriving DecidableEq, Repr
+
+def decStr (cur : String) : JV → Option String
+  | .absent => some cur
+  | .null => some cur
+  | .str s => some s
+  | _ => none
+
+def decBool (cur : Bool) : JV → Option Bool
+  | .absent => some cur
+  | .null => some cur
+  | .bool b => some b
+  | _ => none
+
+/-- unsigned field of `bits` bits -/
+def decUint (bits : Nat) (cur : Nat) : JV → Option Nat
+  | .absent => some cur
+  | .null => some cur
+  | .num n => if 0 ≤ n ∧ n < 2 ^ bits then some n.toNat else none
+  | _ => none
+
+/-- `zapcore.Level` implements `encoding.TextUnmarshaler`: only a JSON string is accepted -/
+def decLevel (P : Preds) (cur : Int) : JV → Option Int
+  | .absent => some cur
+  | .null => some cur
+  | .str s => P.level s
+  | _ => none
+
+/-- `[]string`: each element is a string, or null (which leaves the fresh element empty) -/
+def decPeers : JA → Option (List String)
+  | .absent => some []
+  | .null => some []
+  | .arr l => l.mapM (decStr "")
+  | .other => none
+
+def decode (P : Preds) (d : Doc) : Option C := do
+  let mode ← decStr init.mode d.mode
+  let p4 ← decBool init.enableP4rt d.enableP4rt
+  let access ← decStr init.accessIP d.accessIP
+  let pool ← decStr init.uePool d.uePool
+  let alloc ← decBool init.enableUeIPAlloc d.enableUeIPAlloc
+  let peers ← decPeers d.peers
+  let resp ← decStr init.respTimeout d.respTimeout
+  let read ← decUint 32 init.readTimeout d.readTimeout
+  let retr ← decUint 8 init.maxReqRetries d.maxReqRetries
+  let hb ← decBool init.enableHB d.enableHB
+  let hbi ← decStr init.hbInterval d.hbInterval
+  let lvl ← decLevel P init.logLevel d.logLevel
+  let tc ← decUint 8 init.defaultTC d.defaultTC
+  pure { mode := mode, enableP4rt := p4, accessIP := access, uePool := pool, enableUeIPAlloc := alloc, peers := peers,
+         respTimeout := resp, readTimeout := read, maxReqRetries := retr, enableHB := hb, hbInterval := hbi,
+         logLevel := lvl, defaultTC := tc }
+
+/-! ## "Set defaults, when missing" -/
 
 def defaults (c : C) : C :=
-  { c with respTimeout := if c.respTimeout = "" then "2s" else c.respTimeout,
-           readTimeout := if c.readTimeout = 0 then 15 else c.readTimeout,
-           maxReqRetries := if c.maxReqRetries = 0 then 5 else c.maxReqRetries,
-           hbInterval := if c.enableHB ∧ c.hbInterval = "" then "5s" else c.hbInterval }
+  { c with respTimeout := if c.respTimeout = "" then respTimeoutDefaultStr else c.respTimeout,
+           readTimeout := if c.readTimeout = 0 then readTimeoutDefaultSecs else c.readTimeout,
+           maxReqRetries := if c.maxReqRetries = 0 then maxReqRetriesDefault else c.maxReqRetries,
+           hbInterval := if c.enableHB = true ∧ c.hbInterval = "" then hbIntervalDefaultStr else c.hbInterval }
 
-def modes : List String := ["af_xdp", "af_packet", "cndp", "dpdk", "sim"]
+/-! ## `validateConf` -/
 
-def validate (P : Preds) (c : C) : Bool :=
-  (if c.enableP4rt then P.cidr c.accessIP && P.cidr c.uePool && (c.mode == "") else modes.contains c.mode) &&
-  (if c.enableUeIPAlloc then P.cidr c.uePool else true) &&
-  c.peers.all P.ip &&
-  P.dur c.respTimeout && (c.readTimeout != 0) && (c.maxReqRetries != 0) &&
-  (if c.enableHB then P.dur c.hbInterval else true)
+def modes : List String := Gen.Conf.validModes
 
-def finish (P : Preds) (raw : C) : Option C :=
+/-- which check refused the configuration (in the order the code performs them) -/
+inductive Err
+  | decode                  -- json.Unmarshal returned an error
+  | accessIP                -- UP4: access IP is not a CIDR
+  | uePoolP4                -- UP4: UE pool is not a CIDR
+  | modeP4                  -- UP4: mode set
+  | modeBess                -- BESS: mode not one of the supported ones
+  | uePoolAlloc             -- UE IP allocation enabled: UE pool is not a CIDR
+  | peer (p : String)       -- first peer that is not an IP address
+  | respTimeout
+  | readTimeout
+  | retries
+  | hbInterval
+  deriving DecidableEq, Repr
+
+/-- one `if bad { return err }` -/
+def check (bad : Bool) (e : Err) : Option Err := if bad then some e else none
+
+/-- the checks of `validateConf` in the code's order; the checks of the branch not taken are vacuous -/
+def checks (P : Preds) (c : C) : List (Option Err) :=
+  [ check (c.enableP4rt && !P.cidr c.accessIP) .accessIP,
+    check (c.enableP4rt && !P.cidr c.uePool) .uePoolP4,
+    check (c.enableP4rt && c.mode != "") .modeP4,
+    check (!c.enableP4rt && !modes.contains c.mode) .modeBess,
+    check (c.enableUeIPAlloc && !P.cidr c.uePool) .uePoolAlloc,
+    (c.peers.find? (fun p => !P.ip p)).map .peer,
+    check (!P.dur c.respTimeout) .respTimeout,
+    check (c.readTimeout == 0) .readTimeout,
+    check (c.maxReqRetries == 0) .retries,
+    check (c.enableHB && !P.dur c.hbInterval) .hbInterval ]
+
+/-- `validateConf`: the first check that refuses, if any -/
+def validate (P : Preds) (c : C) : Option Err := (checks P c).findSome? id
+
+instance : DecidableEq (Except Err C)
+  | .ok a, .ok b => if h : a = b then isTrue (by rw [h]) else isFalse (by intro e; cases e; exact h rfl)
+  | .error a, .error b => if h : a = b then isTrue (by rw [h]) else isFalse (by intro e; cases e; exact h rfl)
+  | .ok _, .error _ => isFalse (by intro e; cases e)
+  | .error _, .ok _ => isFalse (by intro e; cases e)
+
+/-- defaults, then validation -/
+def finish (P : Preds) (raw : C) : Except Err C :=
   let c := defaults raw
-  if validate P c then some c else none
+  match validate P c with
+  | none => .ok c
+  | some e => .error e
 
-structure Valid (P : Preds) (raw c : C) : Prop where
-  resp : P.dur c.respTimeout = true ∧ (raw.respTimeout = "" → c.respTimeout = "2s")
-  read : c.readTimeout ≠ 0 ∧ (raw.readTimeout = 0 → c.readTimeout = 15)
-  retr : c.maxReqRetries ≠ 0 ∧ (raw.maxReqRetries = 0 → c.maxReqRetries = 5)
-  hb   : c.enableHB = true → P.dur c.hbInterval = true ∧ (raw.hbInterval = "" → c.hbInterval = "5s")
-  mode : if c.enableP4rt then c.mode = "" ∧ P.cidr c.accessIP = true ∧ P.cidr c.uePool = true else c.mode ∈ modes
-  pool : c.enableUeIPAlloc = true → P.cidr c.uePool = true
-  peers : ∀ p ∈ c.peers, P.ip p = true
-  same : c.mode = raw.mode ∧ c.enableP4rt = raw.enableP4rt ∧ c.peers = raw.peers ∧ c.accessIP = raw.accessIP ∧
-         c.uePool = raw.uePool ∧ c.enableHB = raw.enableHB ∧ c.enableUeIPAlloc = raw.enableUeIPAlloc
+/-- `LoadConfigFile` on a comment-free document -/
+def load (P : Preds) (d : Doc) : Except Err C :=
+  match decode P d with
+  | none => .error .decode
+  | some raw => finish P raw
+
+/-- `LoadConfigFile` on the content of a file: remove comments, tokenise, decode, fill defaults, validate.
+`parse` stands for `encoding/json`'s reading of the comment-free text (which value, if any, sits under each of the
+model's keys; `none` = syntax error). It is not modelled: the theorems hold for every `parse`. -/
+def loadFile (parse : List Char → Option Doc) (P : Preds) (text : List Char) : Except Err C :=
+  match parse (Strip.strip .code text) with
+  | none => .error .decode
+  | some d => load P d
+
+/-! ## the property's predicates (documented literals, not the constants) -/
+
+/-- what every returned configuration satisfies, whatever the document was -/
+def Sound (P : Preds) (c : C) : Prop :=
+  P.dur c.respTimeout = true ∧
+  c.readTimeout ≠ 0 ∧
+  c.maxReqRetries ≠ 0 ∧
+  (c.enableHB = true → P.dur c.hbInterval = true) ∧
+  (if c.enableP4rt = true then c.mode = "" ∧ P.cidr c.accessIP = true ∧ P.cidr c.uePool = true
+   else c.mode ∈ ["af_xdp", "af_packet", "cndp", "dpdk", "sim"]) ∧
+  (c.enableUeIPAlloc = true → P.cidr c.uePool = true) ∧
+  (∀ p ∈ c.peers, P.ip p = true)
+
+instance (P : Preds) (c : C) : Decidable (Sound P c) := by unfold Sound; infer_instance
+
+/-- the documented defaults are filled in, everything else is what was decoded -/
+def Filled (raw c : C) : Prop :=
+  c.respTimeout = (if raw.respTimeout = "" then "2s" else raw.respTimeout) ∧
+  c.readTimeout = (if raw.readTimeout = 0 then 15 else raw.readTimeout) ∧
+  c.maxReqRetries = (if raw.maxReqRetries = 0 then 5 else raw.maxReqRetries) ∧
+  (c.enableHB = true → c.hbInterval = (if raw.hbInterval = "" then "5s" else raw.hbInterval)) ∧
+  (c.enableHB = false → c.hbInterval = raw.hbInterval) ∧
+  c.mode = raw.mode ∧ c.enableP4rt = raw.enableP4rt ∧ c.accessIP = raw.accessIP ∧ c.uePool = raw.uePool ∧
+  c.enableUeIPAlloc = raw.enableUeIPAlloc ∧ c.peers = raw.peers ∧ c.enableHB = raw.enableHB ∧
+  c.logLevel = raw.logLevel ∧ c.defaultTC = raw.defaultTC
+
+instance (raw c : C) : Decidable (Filled raw c) := by unfold Filled; infer_instance
+
+def Valid (P : Preds) (raw c : C) : Prop := Sound P c ∧ Filled raw c
+
+instance (P : Preds) (raw c : C) : Decidable (Valid P raw c) := by unfold Valid; infer_instance
+
+/-- log level `info` (zapcore.InfoLevel) and traffic class ELASTIC, the documented pre-decode defaults -/
+def infoLevel : Int := 0
+def elasticTC : Nat := 3
 
 end Conf
-
